@@ -225,3 +225,81 @@ theorem langU_starts_nodup {F : Flat Q U V} {A : DFTA Sym Q} {G : UCFG V} (hb : 
     rw [← e1, ← e2, Option.some.inj r2]
 
 end PS.U.FD
+
+/-! ### `programs()` returns: fuel adequacy of the memoised recursion -/
+namespace PS.U.FD
+open PS PS.G PS.U DFTA
+variable {V : Type} [DecidableEq V]
+set_option linter.unusedSectionVars false
+
+theorem computeArgs_isSome (c : UNT V → Memo V → Option (Nat × Memo V)) :
+    ∀ (args : List (UNT V)) (loc : Nat) (memo : Memo V),
+      (∀ a ∈ args, ∀ m, (c a m).isSome = true) → (computeArgs c args loc memo).isSome = true
+  | [], _, _, _ => rfl
+  | a :: as, loc, memo, h => by
+    rw [computeArgs]
+    have h1 := h a (by simp) memo
+    cases hc : c a memo with
+    | none => rw [hc] at h1; cases h1
+    | some res =>
+      simp only
+      exact computeArgs_isSome c as _ _ (fun x hx => h x (by simp [hx]))
+
+theorem computeRules_isSome (c : UNT V → Memo V → Option (Nat × Memo V)) :
+    ∀ (alts : List (List (UNT V))) (total : Nat) (memo : Memo V),
+      (∀ args ∈ alts, ∀ a ∈ args, ∀ m, (c a m).isSome = true) →
+      (computeRules c alts total memo).isSome = true
+  | [], _, _, _ => rfl
+  | args :: rest, total, memo, h => by
+    rw [computeRules]
+    have h1 := computeArgs_isSome c args 1 memo (h args (by simp))
+    cases hc : computeArgs c args 1 memo with
+    | none => rw [hc] at h1; cases h1
+    | some res =>
+      simp only
+      exact computeRules_isSome c rest _ _ (fun x hx => h x (by simp [hx]))
+
+/-- `__compute__` returns on every state whose derivations are all complete within `j` levels,
+    as soon as the recursion budget is at least `j` -/
+theorem compute_isSome (G : UCFG V) : ∀ (j fuel : Nat) (a : UNT V) (memo : Memo V),
+    boundedU G j a = true → j ≤ fuel → (compute G fuel a memo).isSome = true := by
+  intro j
+  induction j with
+  | zero => intro fuel a memo h; simp [boundedU] at h
+  | succ j ih =>
+    intro fuel a memo hb hle
+    obtain ⟨f, rfl⟩ : ∃ f, fuel = f + 1 := ⟨fuel - 1, by omega⟩
+    rw [compute]
+    cases hm : AList.lookup a memo with
+    | some c => rfl
+    | none =>
+      simp only
+      rw [boundedU] at hb
+      cases hl : AList.lookup a G.rules with
+      | none => rfl
+      | some rs =>
+        rw [hl] at hb
+        simp only [List.all_eq_true] at hb
+        simp only
+        have h1 := computeRules_isSome (compute G f) (rs.flatMap (fun r => r.2)) 0 memo (by
+          intro args hargs x hx m
+          obtain ⟨r, hr, har⟩ := List.mem_flatMap.mp hargs
+          exact ih f x m (hb r hr args har x hx) (by omega))
+        cases hc : computeRules (compute G f) (rs.flatMap (fun r => r.2)) 0 memo with
+        | none => rw [hc] at h1; cases h1
+        | some res => rfl
+
+theorem programsFrom_isSome (G : UCFG V) (j fuel : Nat) (hle : j ≤ fuel) :
+    ∀ (ss : List (UNT V)) (total : Nat) (memo : Memo V), (∀ s ∈ ss, boundedU G j s = true) →
+      (programsFrom G fuel ss total memo).isSome = true
+  | [], _, _, _ => rfl
+  | s :: ss, total, memo, h => by
+    rw [programsFrom]
+    have h1 := compute_isSome G j fuel s memo (h s (by simp)) hle
+    cases hc : compute G fuel s memo with
+    | none => rw [hc] at h1; cases h1
+    | some res =>
+      simp only
+      exact programsFrom_isSome G j fuel hle ss _ _ (fun x hx => h x (by simp [hx]))
+
+end PS.U.FD
